@@ -106,6 +106,60 @@ fn fuzz_padding(bytes: &[u8], ps: u64, seed: u64) -> Vec<u8> {
     out
 }
 
+/// Rewrite both header records into the legacy (<= 0.10) format: same nine fields, followed by the
+/// SHA3-256 of their big-endian encodings (the Rust twin of golden/legacy.py).
+pub fn to_legacy(bytes: &[u8], ps: u64) -> Vec<u8> {
+    use sha3::{Digest, Sha3_256};
+    let mut out = bytes.to_vec();
+    for slot in 0..2usize {
+        let base = slot * ps as usize + 32;
+        if base + 96 > out.len() {
+            continue;
+        }
+        let mut be = Vec::with_capacity(60);
+        for i in 0..3 {
+            let v = u32::from_le_bytes(out[base + 4 * i..base + 4 * i + 4].try_into().unwrap());
+            be.extend_from_slice(&v.to_be_bytes());
+        }
+        for i in 0..6 {
+            let v = u64::from_le_bytes(out[base + 16 + 8 * i..base + 24 + 8 * i].try_into().unwrap());
+            be.extend_from_slice(&v.to_be_bytes());
+        }
+        let mut h = Sha3_256::new();
+        h.update(&be);
+        let d = h.finalize();
+        out[base + 64..base + 96].copy_from_slice(&d[..]);
+    }
+    out
+}
+
+/// Every other page size (multiples of 8 up to 8 KiB, plus large powers of two) must be refused and
+/// must leave the file untouched.  Returns the number of refused opens.
+fn sweep_wrong_sizes(ctx: &Ctx, shard: &mut Shard, path: &Path, bytes: &[u8], ps: u64, what: &str, stride: usize) -> u64 {
+    let mut refused = 0;
+    let mut sizes: Vec<u64> = (128..=1024u64).map(|k| k * 8).step_by(stride).collect();
+    sizes.extend([12288u64, 16384, 32768, 65536]);
+    for other in sizes {
+        if other == ps {
+            continue;
+        }
+        let ho = History { pagesize: other, num_pages: 8, strict: false, populate: false, txs: vec![], origin: String::new() };
+        let r = util::catch(|| exec::open_db(path, &ho).map(|db| db.pagesize()));
+        let accepted = matches!(&r, Ok(Ok(_)));
+        let replay = serde_json::json!({"kind": "wrong-pagesize", "file": what, "pagesize": ps, "opened_with": other});
+        if accepted {
+            shard.violation(ctx, "pagesize-mismatch:not-refused", &format!("{} (page size {}) was opened with page size {} and accepted", what, ps, other), &replay);
+        } else {
+            refused += 1;
+        }
+        if std::fs::read(path).map(|b| b != bytes).unwrap_or(true) {
+            shard.violation(ctx, "pagesize-mismatch:file-modified", &format!("opening {} (page size {}) with page size {} changed the file's bytes", what, ps, other), &replay);
+            let _ = std::fs::write(path, bytes);
+        }
+    }
+    refused
+}
+
 #[derive(Default)]
 struct St {
     files: u64,
@@ -117,6 +171,7 @@ struct St {
     legacy_files: u64,
     fuzzed_padding_files: u64,
     small_file_mismatches_refused: u64,
+    wide_sweep_refused: u64,
 }
 
 fn check_file(ctx: &Ctx, shard: &mut Shard, st: &mut St, golden: &Path, ps: u64, legacy: bool, manifest: &MBucket, scratch: &Scratch) {
@@ -359,8 +414,29 @@ pub fn run(ctx: &Ctx) -> Shard {
                 let _ = std::fs::write(&path, &bytes);
             }
         }
+        // the same small file in both header formats against a wide sweep of wrong page sizes
+        let stride = if ctx.thorough() { 1 } else { 4 };
+        std::fs::write(&path, &bytes).expect("restore");
+        st.wide_sweep_refused += sweep_wrong_sizes(ctx, &mut shard, &path, &bytes, *ps, &format!("a small current-format file ({} x {} pages)", ps, np), stride);
+        let leg = to_legacy(&bytes, *ps);
+        std::fs::write(&path, &leg).expect("write legacy");
+        st.wide_sweep_refused += sweep_wrong_sizes(ctx, &mut shard, &path, &leg, *ps, &format!("a small legacy-format file ({} x {} pages)", ps, np), stride);
         let _ = std::fs::remove_file(&path);
     }
+    // golden files (mid-history free lists, stale pages) in the legacy format against the wide sweep
+    for (gi, ps) in [1024u64, 4096, 5000, 16384].iter().enumerate() {
+        if (gi as u64 + 3) % ctx.nshards != ctx.shard {
+            continue;
+        }
+        if let Ok(bytes) = std::fs::read(dir.join(format!("legacy-{}.db", ps))) {
+            let path = scratch.fresh("wide");
+            std::fs::write(&path, &bytes).expect("copy");
+            st.wide_sweep_refused += sweep_wrong_sizes(ctx, &mut shard, &path, &bytes, *ps, &format!("the legacy golden file of page size {}", ps), if ctx.thorough() { 1 } else { 2 });
+            let _ = std::fs::remove_file(&path);
+            shard.evaluations += 1;
+        }
+    }
+    shard.count("wrong_page_sizes_refused_in_wide_sweep", st.wide_sweep_refused);
     shard.count("golden_files_with_garbage_in_uninitialised_padding", st.fuzzed_padding_files);
     shard.count("small_file_page_size_mismatches_refused", st.small_file_mismatches_refused);
     shard.count("golden_files_checked", st.files);
